@@ -405,6 +405,41 @@ def check_case(ctx, case):
         ctx.nontrivial(case, sample=case)
 
 
+def check_static_download(ctx, case):
+    """static_file(..., download=True / 'name') writes the file name into Content-Disposition: like every emitted value it must be a Latin-1 encodable
+    native string whose bytes decode as UTF-8 to a text that holds the name; mimetype / charset arguments end up in Content-Type the same way."""
+    import os, shutil, tempfile
+    from vlib.static import serve_static
+    d = tempfile.mkdtemp(prefix='verif-c14-')
+    try:
+        fname = case['fname']
+        with open(os.path.join(d, fname), 'wb') as f:
+            f.write(b'content')
+        kw = {'download': case['download']}
+        if case.get('mimetype'):
+            kw['mimetype'] = case['mimetype']
+        r = serve_static(fname, d, **kw)
+        if r.escaped is not None or r.code != 200:
+            raise CheckFailure(f'static_file({fname!r}, download={case["download"]!r}) answered {r.status!r} {fmt_exc(r.escaped) if r.escaped else r.errors[-300:]}')
+        for k, v in r.headers:
+            if _has_ctl(v):
+                raise CheckFailure(f'static_file({fname!r}): emitted {k} contains CR/LF/NUL: {v!r}')
+            try:
+                back = v.encode('latin1').decode('utf8')
+            except UnicodeError:
+                raise CheckFailure(f'static_file({fname!r}, download={case["download"]!r}): emitted {k} = {v!r} is not Latin-1 text whose bytes are UTF-8')
+            if k == 'Content-Disposition':
+                want = fname if case['download'] is True else case['download']
+                if want not in back:
+                    raise CheckFailure(f'static_file({fname!r}, download={case["download"]!r}): Content-Disposition decodes to {back!r}, which does not hold the name {want!r}')
+        if case['download'] and not any(k == 'Content-Disposition' for k, _ in r.headers):
+            raise CheckFailure(f'static_file({fname!r}, download={case["download"]!r}): no Content-Disposition header')
+        ctx.evals += 1
+        ctx.nontrivial('static:' + repr(case))
+    finally:
+        shutil.rmtree(d, ignore_errors=True)
+
+
 def check_threaded(ctx, case):
     """A 204/304 response with blacklisted entity headers on one thread while another thread serves any request on the same
     application: the blacklist must hold for every single-preemption schedule (the harness owns the schedule)."""
@@ -492,6 +527,10 @@ def run(ctx):
                         continue
                     ctx.guarded(check_case, {'kind': kind, 'status': 200, 'status_first': True, 'ops': [[e, 'Allow' if e == 'ctor_kw' else 'X-Test', ['str', v]]]})
         ctx.count('utf8_lookalike_grid')
+        for fname in ('plain.txt', 'caf\xe9.txt', '\u65e5\u672c.pdf', 'na\xefve \u20ac.bin', 'a b;c.txt', '\xc3\xa9.txt', 'x\U0001f600.dat'):
+            for download in (True, 'other name.txt', 'r\xe9sum\xe9.pdf', '\u65e5.txt', False):
+                ctx.guarded(check_static_download, {'static': True, 'fname': fname, 'download': download})
+        ctx.count('static_download_grid')
         # set_cookie with every injection shape, plain / quoted / half-quoted, next to a clean header
         for s in shapes + ['abc\r\nX-Injected:1', 'abc\0', 'a\r\nSet-Cookie:z=1']:
             for q in ('%s', '"%s"', '"%s', '%s"', "'%s'"):
@@ -514,6 +553,8 @@ def run(ctx):
 
 
 def replay(ctx, case):
+    if case.get('static'):
+        return check_static_download(ctx, case)
     if 'threaded' in case:
         return check_threaded(ctx, case)
     check_case(ctx, case)
